@@ -629,7 +629,7 @@ Section Fll.
   (* ---------------------------------------------------------------------------------------------- well-formedness *)
   (* a value that survives `strip_comments`, `strip` and splitting at newlines: no "#", no newline, no outer whitespace *)
   Definition value_ok (v : string) : bool :=
-    str_forall (fun c => negb (is_hash c) && negb (is_nl c)) v && String.eqb (strip v) v.
+    str_forall (fun c => negb (is_hash c) && negb (is_nl c)) v && String.eqb (lstrip v) v && String.eqb (rstrip v) v.
   (* an identifier name (Op.as_identifier leaves it unchanged) *)
   Definition ident_ok (n : string) : bool := String.eqb (as_identifier n) n.
   (* a rule token: not empty, no whitespace, no "#" *)
